@@ -65,6 +65,24 @@ def generate(tier, rng):
             c = fc.mk("light", False, k, st + [call])
             c["loglevel"] = 0
             yield c
+    for w in ([257] if tier == "quick" else [257, 300]):
+        # more children than CPython caches small ints for (and than any 8-bit cut-off)
+        kids = list(range(1, w + 1))
+        for fl in ("nm", "light"):
+            c = fc.mk(fl, False, w + 2, [{"op": "sc", "n": 0, "xs": kids, "as": rng.choice(["list", "tuple"])}],
+                      cls=("mixin" if fl == "nm" else None))
+            c["loglevel"] = 0
+            yield c
+        c = fc.mk("nm", False, w + 1, [{"op": "ctor", "p": None, "cs": kids, "as": "list"}], cls="node")
+        c["loglevel"] = 0
+        yield c
+    for n0, ops in fc.wide_histories(rng, tier, faults=False):
+        fl = rng.choice(["nm", "light"])
+        if any(fc.has_nonnode(o) for o in ops):
+            fl = "nm"
+        c = fc.mk(fl, False, n0, ops, cls=(rng.choice(fc.NM_CLASSES) if fl == "nm" else None))
+        c["loglevel"] = 0
+        yield c
     for _ in range(500 if tier == "quick" else 8000):
         n0 = rng.randrange(3, 8)
         fl = rng.choice(["nm", "light"])
